@@ -13,6 +13,8 @@ def proj_all(o):
     if o[0] == "err":
         return o[:4] if o[1] in PBE else o[:2]
     if o[0] == "scan":
+        if o[2] == "div":
+            return ("scan", "div")       # the matches yielded before the generator started to spin are not compared
         return ("scan", o[1], proj_all(o[2]) if isinstance(o[2], tuple) else o[2])
     return o
 
@@ -45,12 +47,18 @@ def run_groups(groups, proj=proj_all, stats=None, model=True):
         for cname, cnt in d.classes.items():
             stats.setdefault("classes", {})
             stats["classes"][cname] = stats["classes"].get(cname, 0) + 1
+        spins = set()        # inputs on which this grammar spins: the other modes/entries are not run (they spin too)
         for inp in inputs:
             for mode in modes:
                 for entry in entries:
+                    if inp in spins:
+                        stats["skipped_after_spin"] = stats.get("skipped_after_spin", 0) + 1
+                        continue
                     cid = "c%d" % n
                     n += 1
                     real = observe.run_real(root, d, inp, mode, entry) if entry[0] != "peg" else None
+                    if real is not None and (real == ("div",) or (real[0] == "scan" and real[2] == "div")):
+                        spins.add(inp)
                     if model:
                         lines.append(observe.case_line(cid, esx, rsx, root.keepTabs, inp, mode, entry))
                     recs.append({"id": cid, "g": g, "env": env, "inp": inp, "mode": mode, "entry": entry, "real": real,
